@@ -183,7 +183,8 @@ def random_desc(rng: random.Random, nf: int) -> dict:
         bnd = []
         for p in params:
             r = rng.random()
-            if p in roots and r < 0.2:
+            if (p in roots and r < 0.2) or (p not in roots and r < 0.12):
+                # (a default on a parameter that another function produces is legal: the produced value wins)
                 dfl.append([p, {"f": f"@d_{p}", "a": []}])
             elif r > 0.88:
                 bnd.append([p, {"f": f"@b_{p}_{i}", "a": []}])
